@@ -243,6 +243,17 @@ func (e *evaluator) eval(op string, args []string) (res string, val starlark.Val
 		}
 		return render(v), v
 	}
+	if op == "lituse" {
+		// the literal used as shift count, repetition count, index, key and member
+		t := args[0][1:]
+		n := args[1][1:]
+		src := fmt.Sprintf("[1 << %[1]s, (3 << 100) >> %[1]s, -7 >> %[1]s, len(\"ab\" * %[1]s), tuple(range(50))[%[1]s], range(100, 1000, 7)[%[1]s], {%[1]s: 5}[%[2]s], %[1]s in {%[2]s: 1}, %[2]s in set([%[1]s]), list(range(50))[%[1]s], len([0] * %[1]s) + 1]", t, n)
+		v, err := starlark.EvalOptions(&syntax.FileOptions{Set: true}, e.th, "lituse", src, nil)
+		if err != nil {
+			return "E:" + err.Error(), nil
+		}
+		return render(v), v
+	}
 	if op == "lit" {
 		v, err := starlark.EvalOptions(&syntax.FileOptions{}, e.th, "lit", args[0][1:], nil)
 		if err != nil {
@@ -482,7 +493,7 @@ func caseKey(op string, args []string, exp, res string) string {
 				}
 			}
 		}
-		if op == "lit" || op == "lit2" {
+		if op == "lit" || op == "lit2" || op == "lituse" {
 			t := strings.TrimLeft(a[1:], "-")
 			switch {
 			case strings.ContainsAny(t, ".") || (strings.ContainsAny(t, "eE") && !strings.HasPrefix(t, "0x") && !strings.HasPrefix(t, "0X")):
